@@ -7,6 +7,7 @@ from ..core.rx import AStr, W, SP, WS, DASH, DOT, HASH, LP, RP
 from ..core.symexec import run_paths, calls_on
 from ..core.consts import NotConst
 from .util import find_try_handler, handler_names, raises_in
+from .sem import canon_expr, return_canons, grow_events
 
 ST = "smpl_extract/structural.py"
 BASE = "smpl_extract/base.py"
@@ -19,8 +20,27 @@ def _is_routines_iter(node):
     return t in ("self._routines.values()", "getattr(self, '_routines', {}).values()", "(getattr(self, '_routines', None) or {}).values()")
 
 
-def _routine_loop(fn):
-    """(For node, variable threaded through the routines) or None"""
+def _routine_loop(fn, ctx=None):
+    """(node, variable threaded through the routines) or None.  The node is the `for routine in
+    self._routines.values(): x = routine(x)` loop, or an assignment `x = helper(<routines>, x)` whose helper
+    (same module) is such a loop over its first parameter returning the threaded value."""
+    if ctx is not None:
+        for n in own_nodes(fn):
+            if isinstance(n, ast.Assign) and len(n.targets) == 1 and isinstance(n.targets[0], ast.Name) and isinstance(n.value, ast.Call) \
+                    and isinstance(n.value.func, (ast.Name, ast.Attribute)) and len(n.value.args) == 2 \
+                    and norm(n.value.args[0]) in ("self._routines", "getattr(self, '_routines', {})") \
+                    and isinstance(n.value.args[1], ast.Name) and n.value.args[1].id == n.targets[0].id:
+                hname = n.value.func.id if isinstance(n.value.func, ast.Name) else n.value.func.attr
+                from .sem import local_function
+                h = local_function(ctx, fn._module, hname, enclosing_class(fn))
+                if h is not None:
+                    hp = [a.arg for a in h.args.args if a.arg not in ("self", "cls")]
+                    for f in own_nodes(h):
+                        if isinstance(f, ast.For) and len(hp) == 2 and norm(f.iter) == f"{hp[0]}.values()" and isinstance(f.target, ast.Name):
+                            thr = [st for st in f.body if isinstance(st, ast.Assign) and norm(st) == f"{hp[1]} = {f.target.id}({hp[1]})"]
+                            rets = [r for r in own_nodes(h) if isinstance(r, ast.Return)]
+                            if thr and rets and all(norm(r.value) == hp[1] for r in rets):
+                                return n, n.targets[0].id
     for n in own_nodes(fn):
         if isinstance(n, ast.For) and _is_routines_iter(n.iter) and isinstance(n.target, ast.Name):
             r = n.target.id
@@ -58,11 +78,11 @@ def _follow_children(ctx, cls):
         fn = nxt
     # a realiser called from the last function (e.g. _load_partitions)
     last = chain[-1] if chain else None
-    if last is not None and _routine_loop(last) is None:
+    if last is not None and _routine_loop(last, ctx) is None:
         for n in own_nodes(last):
             if isinstance(n, ast.Call) and isinstance(n.func, ast.Attribute) and isinstance(n.func.value, ast.Name) and n.func.value.id == "self":
                 cand = prog.find_method(cls, n.func.attr)
-                if cand is not None and _routine_loop(cand) is not None:
+                if cand is not None and _routine_loop(cand, ctx) is not None:
                     chain.append(cand)
     return chain
 
@@ -82,7 +102,7 @@ def rule_N1(ctx):
             continue
         ok, det = False, ""
         for fn in chain:
-            rl = _routine_loop(fn)
+            rl = _routine_loop(fn, ctx)
             if rl is None:
                 continue
             loop, var = rl
@@ -342,6 +362,95 @@ class StrInterp:
 ALLC = rx.ALL
 
 
+def _match_of(ctx, fn, si, v):
+    """('match', kind, tree, source AStr, source var) for a `<regex>.match(x)` / `re.match(pat, x)` call, else None"""
+    if not (isinstance(v, ast.Call) and isinstance(v.func, ast.Attribute) and v.func.attr in ("match", "search", "fullmatch")):
+        return None
+    tree = None
+    srcnode = None
+    if norm(v.func.value) == "re" and len(v.args) >= 2 and isinstance(v.args[0], ast.Constant):
+        tree = rx.parse(v.args[0].value)
+        srcnode = v.args[1]
+    else:
+        rg = _regex_of(ctx, fn, v.func.value)
+        if rg is not None and v.args:
+            tree = rx.parse(rg[0], rg[1])
+            srcnode = v.args[0]
+    if tree is None or srcnode is None:
+        return None
+    src = si.ev(srcnode)
+    if src is None:
+        return None
+    return ("match", v.func.attr, tree, src, srcnode.id if isinstance(srcnode, ast.Name) else None)
+
+
+def _refine(ctx, fn, si, test, truth, flags):
+    """refine the abstract strings with the knowledge that `test` evaluated to `truth`"""
+    if isinstance(test, ast.UnaryOp) and isinstance(test.op, ast.Not):
+        return _refine(ctx, fn, si, test.operand, not truth, flags)
+    if isinstance(test, ast.BoolOp):
+        if (isinstance(test.op, ast.And) and truth) or (isinstance(test.op, ast.Or) and not truth):
+            for v in test.values:
+                _refine(ctx, fn, si, v, truth, flags)
+        return
+    # `if match:` / `if <regex>.match(x):`
+    m = None
+    if isinstance(test, ast.Name) and isinstance(si.vars.get(test.id), tuple):
+        m = si.vars[test.id]
+    elif isinstance(test, ast.Call):
+        m = _match_of(ctx, fn, si, test)
+    elif isinstance(test, ast.Compare) and len(test.ops) == 1 and isinstance(test.ops[0], (ast.Is, ast.IsNot)) and norm(test.comparators[0]) == "None":
+        inner = test.left
+        mm = si.vars.get(inner.id) if isinstance(inner, ast.Name) else _match_of(ctx, fn, si, inner)
+        if isinstance(mm, tuple):
+            m = mm
+            truth = truth if isinstance(test.ops[0], ast.IsNot) else not truth
+    if m is not None:
+        _, kind, tree, src, srcvar = m
+        if truth and kind == "match" and srcvar and isinstance(si.vars.get(srcvar), AStr):
+            fc = rx.first_classes(tree)
+            if None not in fc:
+                cur = si.vars[srcvar]
+                si.vars[srcvar] = cur.copy(first=cur.first & {c for c in fc if c is not None}, maybe_empty=False)
+        return
+    # len(x) <op> k   /  truthiness of x
+    if isinstance(test, ast.Name) and isinstance(si.vars.get(test.id), AStr):
+        cur = si.vars[test.id]
+        si.vars[test.id] = cur.copy(maybe_empty=False) if truth else AStr((), (), (), True)
+        return
+    if isinstance(test, ast.Compare) and len(test.ops) == 1 and isinstance(test.left, ast.Call) and norm(test.left.func) == "len" \
+            and isinstance(test.left.args[0], ast.Name) and isinstance(si.vars.get(test.left.args[0].id), AStr) and isinstance(test.comparators[0], ast.Constant):
+        var = test.left.args[0].id
+        op, k = test.ops[0], test.comparators[0].value
+        empty_when_true = (isinstance(op, ast.LtE) and k == 0) or (isinstance(op, ast.Lt) and k == 1) or (isinstance(op, ast.Eq) and k == 0)
+        nonempty_when_true = (isinstance(op, ast.Gt) and k == 0) or (isinstance(op, ast.GtE) and k == 1) or (isinstance(op, ast.NotEq) and k == 0)
+        cur = si.vars[var]
+        if (empty_when_true and not truth) or (nonempty_when_true and truth):
+            si.vars[var] = cur.copy(maybe_empty=False)
+        elif (empty_when_true and truth) or (nonempty_when_true and not truth):
+            si.vars[var] = AStr((), (), (), True)
+        return
+    # x[-1] in (".", "-")   /  x.endswith / x.startswith with a constant
+    if isinstance(test, ast.Compare) and len(test.ops) == 1 and isinstance(test.ops[0], (ast.In, ast.NotIn, ast.Eq, ast.NotEq)) and isinstance(test.left, ast.Subscript) \
+            and isinstance(test.left.value, ast.Name) and norm(test.left.slice) in ("-1", "0", "-1:", ":1"):
+        var = test.left.value.id
+        cur = si.vars.get(var)
+        comp = test.comparators[0]
+        elts = comp.elts if isinstance(comp, (ast.Tuple, ast.List, ast.Set)) else [comp]
+        if isinstance(cur, AStr) and all(isinstance(e, ast.Constant) and isinstance(e.value, str) and len(e.value) == 1 for e in elts):
+            cl = set()
+            for e in elts:
+                cl |= rx.classes_of_text(e.value)
+            positive = isinstance(test.ops[0], (ast.In, ast.Eq))
+            member = truth if positive else not truth
+            which = "last" if norm(test.left.slice) in ("-1", "-1:") else "first"
+            curset = getattr(cur, which)
+            singles = {c for c in cl if c in (DASH, DOT, HASH, LP, RP, rx.SL, rx.BSL, rx.COLON, SP)}
+            new = (curset & cl) if member else (curset - singles)
+            si.vars[var] = cur.copy(**{which: new})
+        return
+
+
 def _interp_path(ctx, fn, p, inputs, flags):
     """run the abstract string interpreter along one symexec path; returns (AStr|None for the returned
     value, problems)"""
@@ -356,23 +465,7 @@ def _interp_path(ctx, fn, p, inputs, flags):
             v = st.value
             # match objects
             if isinstance(v, ast.Call) and isinstance(v.func, ast.Attribute) and v.func.attr in ("match", "search", "fullmatch"):
-                tree = None
-                kind = v.func.attr
-                srcnode = None
-                if norm(v.func.value) == "re" and len(v.args) >= 2 and isinstance(v.args[0], ast.Constant):
-                    tree = rx.parse(v.args[0].value)
-                    srcnode = v.args[1]
-                else:
-                    rg = _regex_of(ctx, fn, v.func.value)
-                    if rg is not None and v.args:
-                        tree = rx.parse(rg[0], rg[1])
-                        srcnode = v.args[0]
-                if tree is not None and srcnode is not None:
-                    src = si.ev(srcnode)
-                    if src is not None:
-                        si.vars[t] = ("match", kind, tree, src, srcnode.id if isinstance(srcnode, ast.Name) else None)
-                        continue
-                si.vars[t] = None
+                si.vars[t] = _match_of(ctx, fn, si, v)
                 continue
             if isinstance(v, (ast.List, ast.Tuple)):
                 si.vars["list:" + t] = v
@@ -381,56 +474,7 @@ def _interp_path(ctx, fn, p, inputs, flags):
             r = si.ev(v)
             si.vars[t] = r
         elif s.kind == "test" and s.label in ("true", "false"):
-            taken = s.label == "true"
-            test = st.test
-            neg = False
-            while isinstance(test, ast.UnaryOp) and isinstance(test.op, ast.Not):
-                test = test.operand
-                neg = not neg
-            truth = taken != neg
-            # `if match:` refinement
-            if isinstance(test, ast.Name) and isinstance(si.vars.get(test.id), tuple):
-                m = si.vars[test.id]
-                _, kind, tree, src, srcvar = m
-                if truth and kind == "match" and srcvar and isinstance(si.vars.get(srcvar), AStr):
-                    f = {c for c in rx.first_classes(tree) if c is not None}
-                    if None not in rx.first_classes(tree):
-                        cur = si.vars[srcvar]
-                        si.vars[srcvar] = cur.copy(first=cur.first & f, maybe_empty=False)
-                continue
-            # len(x) <= 0 / len(x) > 0 ...
-            if isinstance(test, ast.Compare) and len(test.ops) == 1 and isinstance(test.left, ast.Call) and norm(test.left.func) == "len" \
-                    and isinstance(test.left.args[0], ast.Name) and isinstance(si.vars.get(test.left.args[0].id), AStr) and isinstance(test.comparators[0], ast.Constant):
-                var = test.left.args[0].id
-                op, k = test.ops[0], test.comparators[0].value
-                empty_when_true = (isinstance(op, ast.LtE) and k == 0) or (isinstance(op, ast.Lt) and k == 1) or (isinstance(op, ast.Eq) and k == 0)
-                nonempty_when_true = (isinstance(op, ast.Gt) and k == 0) or (isinstance(op, ast.GtE) and k == 1) or (isinstance(op, ast.NotEq) and k == 0)
-                cur = si.vars[var]
-                if (empty_when_true and not truth) or (nonempty_when_true and truth):
-                    si.vars[var] = cur.copy(maybe_empty=False)
-                elif (empty_when_true and truth) or (nonempty_when_true and not truth):
-                    si.vars[var] = AStr((), (), (), True)
-                continue
-            # x[-1] in (".", "-")
-            if isinstance(test, ast.Compare) and len(test.ops) == 1 and isinstance(test.ops[0], (ast.In, ast.NotIn)) and isinstance(test.left, ast.Subscript) \
-                    and isinstance(test.left.value, ast.Name) and norm(test.left.slice) in ("-1", "0") and isinstance(test.comparators[0], (ast.Tuple, ast.List, ast.Set)):
-                var = test.left.value.id
-                cur = si.vars.get(var)
-                if isinstance(cur, AStr):
-                    cl = set()
-                    for e in test.comparators[0].elts:
-                        if isinstance(e, ast.Constant) and isinstance(e.value, str):
-                            cl |= rx.classes_of_text(e.value)
-                    member = truth if isinstance(test.ops[0], ast.In) else not truth
-                    which = "last" if norm(test.left.slice) == "-1" else "first"
-                    curset = getattr(cur, which)
-                    singles = {c for c in cl if c in (DASH, DOT, HASH, LP, RP, rx.SL, rx.BSL, rx.COLON, SP)}
-                    new = (curset & cl) if member else (curset - singles)
-                    si.vars[var] = cur.copy(**{which: new})
-                continue
-            # flags such as `not is_file`
-            if isinstance(test, ast.Name) and test.id in flags:
-                continue
+            _refine(ctx, fn, si, st.test, s.label == "true", flags)
     ret = None
     if p.ret_node is not None and p.ret_node.value is not None:
         ret = si.ev(p.ret_node.value)
@@ -446,8 +490,13 @@ def rule_N4(ctx):
         raise AnalysisError("N4", where(me), "no return path")
     pname = me.args.args[1].arg
     for p in prs:
-        is_dir = any(t and c in ("not(truthy(is_file))",) for c, t, _ in p.conds) or any((not t) and c == "truthy(is_file)" for c, t, _ in p.conds)
-        is_file_known = any(c in ("not(truthy(is_file))", "truthy(is_file)") for c, t, _ in p.conds)
+        from .sem import _lits
+        facts = set()
+        for c, t, _n in p.conds:
+            alts = _lits(c, t)
+            if len(alts) == 1:
+                facts |= set(alts[0])
+        is_dir = ("truthy(is_file)", False) in facts
         r = _interp_path(ctx, me, p, {pname: AStr()}, {"is_file"})
         key = p.cond_key()[:150]
         if r is None:
@@ -467,7 +516,7 @@ def rule_N4(ctx):
         if is_dir:
             ok5 = not (r.last & {DOT})
             ctx.ob("N4", p.ret_node, "a directory's export name does not end in a dot", ok5, "" if ok5 else "directory name may end in '.'", inst=f"export-dir-dot:{key}")
-    if not any(any(c in ("not(truthy(is_file))",) and t or c == "truthy(is_file)" and not t for c, t, _ in p.conds) for p in prs):
+    if not any("is_file" in c for p in prs for c, t, _ in p.conds):
         ctx.ob("N4", me, "directories are treated separately from files (trailing '.'/'-' rule)", False, "no path distinguishes directories", inst="export-dir-branch")
     # safe names are stripped
     ms = ctx.fn(ST, "Image.make_safe_name", "N4")
@@ -517,10 +566,13 @@ def rule_N4(ctx):
 # ------------------------------------------------------------------------ N5
 def rule_N5(ctx):
     ep = ctx.fn(BASE, "Element.export_path", "N5")
-    asg = [a for a in own_nodes(ep) if isinstance(a, ast.Assign) and norm(a.targets[0]) == "new_path" and isinstance(a.value, ast.BinOp)]
-    ok = len(asg) == 1 and norm(asg[0].value) == "[current_node.export_name] + new_path"
+    from .sem import grow_events, canon_expr, return_canons
+    wl = [w for w in own_nodes(ep) if isinstance(w, ast.While)]
+    grows = [(n, k, v) for w in wl for n, k, v in grow_events(w, "new_path")]
+    ok = len(grows) == 1 and ((grows[0][1] == "prepend" and norm(grows[0][2]) == "[current_node.export_name]")
+                              or (grows[0][1] == "insert" and norm(grows[0][2]) == "current_node.export_name" and norm(grows[0][0].args[0]) == "0"))
     ctx.ob("N5", ep, "export_path is built from the export_name of the element and of each ancestor, root first", ok,
-           "" if ok else f"path components come from `{norm(asg[0].value) if asg else '?'}`", inst="export_path")
+           "" if ok else f"path components come from `{[norm(g[0]) for g in grows]}`", inst="export_path")
     adv = [a for a in own_nodes(ep) if isinstance(a, ast.Assign) and norm(a) == "current_node = current_node.parent"]
     ctx.ob("N5", ep, "export_path climbs through .parent", len(adv) == 1, "", inst="export_path-parent")
     for prop in ("safe_name", "export_name"):
@@ -529,19 +581,20 @@ def rule_N5(ctx):
         ok = f"self._{prop}" in t and "result = self.name" in t
         ctx.ob("N5", f, f"Element.{prop} returns the assigned _{prop} (raw name only when none was assigned)", ok, "", inst=prop)
     mo = ctx.fn(ST, "ExportManager.make_output_path", "N5")
-    ok = any(isinstance(a, ast.Assign) and norm(a.value) == "'/'.join(components)" for a in own_nodes(mo)) and \
-        any(isinstance(a, ast.Assign) and norm(a.value) == f"{mo.args.args[1].arg}.export_path()" for a in own_nodes(mo))
-    ctx.ob("N5", mo, "inner output path = '/'.join(sample.export_path())", ok, "", inst="make_output_path")
+    rc = return_canons(mo)
+    ok = rc == [f"'/'.join({mo.args.args[1].arg}.export_path())"]
+    ctx.ob("N5", mo, "inner output path = '/'.join(sample.export_path())", ok, f"{rc}", inst="make_output_path")
     es = ctx.fn(ST, "ExportManager.export_samples", "N5")
-    asg = {norm(a.targets[0]): norm(a.value) for a in own_nodes(es) if isinstance(a, ast.Assign) and len(a.targets) == 1}
-    ok = asg.get("total_path") == "os.path.join(self.output_directory, inner_path) + '.wav'" and asg.get("inner_path") == "self.make_output_path(sample)"
-    ctx.ob("N5", es, "file written = join(destination, inner path) + '.wav'", ok, f"{asg.get('total_path')}", inst="total_path")
     ew = [c for c in own_nodes(es) if isinstance(c, ast.Call) and norm(c.func) == "export_wav"]
-    ok = len(ew) == 1 and [norm(a) for a in ew[0].args] == ["sample", "total_path"]
-    ctx.ob("N5", es, "the sample is written to exactly that path", ok, "", inst="export_wav-call")
+    fl = [f for f in own_nodes(es) if isinstance(f, ast.For) and ew and any(n is ew[0] for n in ast.walk(f))]
+    sv = fl[0].target.id if fl and isinstance(fl[0].target, ast.Name) else "sample"
+    ok = len(ew) == 1 and len(ew[0].args) == 2 and norm(ew[0].args[0]) == sv \
+        and canon_expr(es, ew[0].args[1]) == f"os.path.join(self.output_directory, self.make_output_path({sv})) + '.wav'"
+    ctx.ob("N5", es, "each sample is written to join(destination, inner path) + '.wav'", ok,
+           "" if ok else f"written to `{canon_expr(es, ew[0].args[1]) if ew and len(ew[0].args) == 2 else '?'}`", inst="total_path")
     pr = [c for c in own_nodes(es) if isinstance(c, ast.Call) and norm(c.func) == "print"]
-    ok = len(pr) == 1 and norm(pr[0].args[0]) == "f'Exported {inner_path}.wav'"
-    ctx.ob("N5", es, "the `Exported` line names the same inner path", ok, "", inst="exported-line")
+    ok = len(pr) == 1 and canon_expr(es, pr[0].args[0]) == "f'Exported {self.make_output_path(" + sv + ")}.wav'"
+    ctx.ob("N5", es, "the `Exported` line names the same inner path", ok, "" if ok else (canon_expr(es, pr[0].args[0]) if pr else ""), inst="exported-line")
     # who may open for writing
     n = 0
     for m, q, fn in ctx.prog.all_functions():
@@ -611,7 +664,11 @@ def rule_N6(ctx):
         ctx.ob("N6", f, f"{q} strips blanks (names are matched with or without surrounding blanks)", ok, "", inst=q)
     ak = ctx.fn("smpl_extract/akai/image.py", "AkaiImageParser._sanitize_string", "N6")
     t = full(ak)
-    ok = ".upper()" in t and "result[-1] == ':'" in t and "result[:-1]" in t
+    colon = [c for c in own_nodes(ak) if isinstance(c, ast.Compare) and len(c.ops) == 1 and isinstance(c.ops[0], ast.Eq)
+             and isinstance(c.comparators[0], ast.Constant) and c.comparators[0].value == ":" and isinstance(c.left, ast.Subscript) and norm(c.left.slice) in ("-1", "-1:")] \
+        + [c for c in own_nodes(ak) if isinstance(c, ast.Call) and isinstance(c.func, ast.Attribute) and c.func.attr == "endswith" and c.args and norm(c.args[0]) == "':'"]
+    chop = [n for n in own_nodes(ak) if isinstance(n, ast.Subscript) and norm(n.slice) == ":-1"]
+    ok = ".upper()" in t and len(colon) == 1 and len(chop) == 1
     ctx.ob("N6", ak, "AKAI images match case-insensitively and ignore one trailing colon (partition names)", ok, "", inst="akai-normalise")
 
 
@@ -655,8 +712,28 @@ def rule_N7(ctx):
             ok = len(sets) == 1 and [norm(a) for a in sets[0].value.args] == ["element", "name"]
             ctx.ob("N7", f2, "a name used by a single element is assigned unchanged", ok, "", inst="single-set")
     # numbering: first keeps the name, later ones get _add_count_to_name(name, i) and skip taken names
-    t = full(f3)
-    ok = "next_name = self._add_count_to_name(name, i)" in t and "while next_name in candidate_names.keys()" in t and "next_name = name" in t
+    from .streams import _walk
+    from .util import evaluator
+    seen_first = seen_later = False
+    okn = True
+    for kind, path, edge in cfg.iteration_paths(lp):
+        if kind != "back":
+            continue
+        pr = _walk(ctx, fn, cfg, path)
+        for c, env, st in calls_on(pr, name="f_set"):
+            val = evaluator(ctx, fn, env).ev(c.args[1]).key() if len(c.args) == 2 else "?"
+            defs = [x.ast for x in pr.steps if x.kind == "stmt" and isinstance(x.ast, ast.Assign) and norm(x.ast.targets[0]) == norm(c.args[1])]
+            if val == "name":
+                seen_first = True
+            elif val.startswith("self._add_count_to_name(name,") or (defs and all(isinstance(d.value, ast.Call) and norm(d.value.func) == "self._add_count_to_name"
+                                                                               and norm(d.value.args[0]) == "name" for d in defs)):
+                seen_later = True
+            else:
+                okn = False
+    wl = [w for w in ast.walk(f3) if isinstance(w, ast.While)]
+    okw = len(wl) == 1 and isinstance(wl[0].test, ast.Compare) and len(wl[0].test.ops) == 1 and isinstance(wl[0].test.ops[0], ast.In) \
+        and norm(wl[0].test.left) == "next_name" and norm(wl[0].test.comparators[0]) in ("candidate_names", "candidate_names.keys()")
+    ok = okn and seen_first and seen_later and okw
     ctx.ob("N7", f3, "the first duplicate keeps the name, later ones get '(n)' counters that skip names already taken by another group", ok, "", inst="numbering")
     rets = [r for r in own_nodes(fn) if isinstance(r, ast.Return)]
     ok = len(rets) == 1 and norm(rets[0].value) in ("result", "elements")
@@ -720,6 +797,11 @@ def rule_N8(ctx):
     wl = [w for w in own_nodes(pp) if isinstance(w, ast.While)]
     ok = len(wl) == 1 and len([c for c in ast.walk(wl[0]) if isinstance(c, ast.Call) and norm(c.func) == "next"]) == 2 \
         and any(norm(a) == "tokens.append(next_token)" for a in ast.walk(wl[0]) if isinstance(a, ast.Call))
+    if not ok:
+        # equivalent spelling: every second item of the split result, starting with the first
+        tk = [a for a in own_nodes(pp) if isinstance(a, (ast.Assign, ast.AnnAssign)) and norm(a.targets[0] if isinstance(a, ast.Assign) else a.target) == "tokens"]
+        ok = any(a.value is not None and canon_expr(pp, a.value) in ("self._TOKENIZE_PATH_REGEX.split(path.strip())[0::2]", "self._TOKENIZE_PATH_REGEX.split(path.strip())[::2]",
+                                                                      "list(self._TOKENIZE_PATH_REGEX.split(path.strip())[0::2])", "list(self._TOKENIZE_PATH_REGEX.split(path.strip())[::2])") for a in tk)
     ctx.ob("N8", pp, "separators (every second split item) are skipped, names kept in order", ok, "", inst="skip-separators")
     rets = [r for r in own_nodes(pp) if isinstance(r, ast.Return)]
     ok = len(rets) == 1 and norm(rets[0].value) == "current_node"
@@ -730,9 +812,16 @@ def rule_N8(ctx):
     ok = len(calls) == 1
     if ok:
         h = find_try_handler(calls[0], la, {"ErrorInvalidPath"})
-        ok = h is not None and any(isinstance(n, ast.Return) for n in h.body) and any(isinstance(c, ast.Call) and norm(c.func) == "print" for st in h.body for c in ast.walk(st))
-    ctx.ob("N8", la, "ls prints the not-found message and returns (no traceback)", ok, "", inst="ls-handles")
-    after = [c for c in own_nodes(la) if isinstance(c, ast.Call) and norm(c.func) in ("item.get_info", "info.to_string")]
+        ok = h is not None and any(isinstance(c, ast.Call) and norm(c.func) == "print" for st in h.body for c in ast.walk(st))
+        if ok:
+            tr = h._parent
+            ends = any(isinstance(n, ast.Return) for n in h.body)
+            # nothing that needs the resolved item runs after the handler fell through
+            after_try = [st for st in la.body if st.lineno > (tr.end_lineno or tr.lineno)]
+            ok = ends or not any("item" in {n.id for n in ast.walk(st) if isinstance(n, ast.Name)} for st in after_try)
+            ok = ok and not any(isinstance(n, ast.Raise) for st in h.body for n in ast.walk(st))
+    ctx.ob("N8", la, "ls prints the not-found message and stops (no traceback, no rendering of a stale item)", ok, "", inst="ls-handles")
+    after = [c for c in own_nodes(la) if isinstance(c, ast.Call) and isinstance(c.func, ast.Attribute) and c.func.attr in ("get_info", "to_string")]
     ctx.ob("N8", la, "ls renders the resolved item's info", len(after) == 2, "", inst="ls-renders")
 
 
